@@ -14,6 +14,7 @@ func main() {
 		"polst": func(f []string) string { return k8s.VerifPolicyStatus(verifio.KV(f)) },
 		"eps": func(f []string) string { return k8s.VerifEps(verifio.KV(f)) },
 		"refs": func(f []string) string { return k8s.VerifRefs(verifio.KV(f)) },
+		"lbc": func(f []string) string { return k8s.VerifLbc(verifio.KV(f)) },
 		"cls": func(f []string) string { return k8s.VerifClass(verifio.KV(f)) },
 	})
 }
